@@ -135,6 +135,9 @@ found:
 		eiv = biv
 	}
 	if eiv >= len(ref.Intervals) {
+		// New tiles (possibly after a gap of empty ones): the
+		// linear index is no longer in the order sort() leaves it in.
+		i.IsSorted = false
 		intvs := make([]bgzf.Offset, eiv+1)
 		if len(ref.Intervals) > biv {
 			biv = len(ref.Intervals)
